@@ -156,18 +156,28 @@ func firstKey(d *model.Desc) *model.KeyDesc {
 	return nil
 }
 
+// axisOfType picks (at random, from the package-level PRNG of the current run) one axis of the wanted type.
+var axisPick *simrt.Rng
+
 func axisOfType(d *model.Desc, typ string, pred func(*model.AxisDesc) bool) *model.AxisDesc {
+	var cands []*model.AxisDesc
 	for mi := range d.Mappings {
 		for si := range d.Mappings[mi].Analog {
 			for ai := range d.Mappings[mi].Analog[si].Axes {
 				a := &d.Mappings[mi].Analog[si].Axes[ai]
 				if (typ == "" || a.Type == typ) && (pred == nil || pred(a)) {
-					return a
+					cands = append(cands, a)
 				}
 			}
 		}
 	}
-	return nil
+	if len(cands) == 0 {
+		return nil
+	}
+	if axisPick == nil {
+		return cands[0]
+	}
+	return cands[axisPick.Intn(len(cands))]
 }
 
 func descEdit(f func(r *simrt.Rng, d *model.Desc) bool) func(*simrt.Rng, *model.Desc, string) (string, bool) {
@@ -234,7 +244,8 @@ var invalidations = []invalidation{
 		if k == nil {
 			return false
 		}
-		k.NoteText = []string{"h3", "H3", "e#1", "B#0", "c9", "c-3", "cc3", "", "c3x", " c3", "c 3", "z-2", "g#8", "c#", "3c", "c--1", "do3"}[r.Intn(17)]
+		k.NoteText = []string{"h3", "H3", "e#1", "B#0", "c9", "c-3", "cc3", "", "c3x", " c3", "c 3", "z-2", "g#8", "c#", "3c", "c--1", "do3",
+			"c10", "c20", "c-20", "c-15", "a-10", "c99", "g#19", "d-21", "c020", "c+3"}[r.Intn(27)]
 		return true
 	})},
 	{"unknown action", descEdit(func(r *simrt.Rng, d *model.Desc) bool {
@@ -397,6 +408,7 @@ func runW4C10(t *testing.T, job *Job, seed uint64, rp *Replay) RunOut {
 	if rp != nil && rp.Override && len(rp.Ops) > 0 {
 		ro.Infra = "C10 replays re-run the seed (no override format)"
 	}
+	axisPick = r
 	d := richDesc(r, 0)
 	mk(d, d.TOML(), true, "")
 	n := 4
